@@ -1728,6 +1728,12 @@ def check_update_protocol(ck, R):
                         # the length of a collection that is empty on this path: the test is decided
                         return ("const", not nonempty) if nonempty is not None else (None, None)
                     return ("changed", (changed_coll(x_.args[0]), nonempty, A.norm_alpha(x_.args[0])))
+        if isinstance(e, ast.Call) and A.norm(e.func) == "any" and len(e.args) == 1 and not e.keywords and isinstance(e.args[0], (ast.GeneratorExp, ast.ListComp)) \
+                and len(e.args[0].generators) == 1:
+            # any(r.did_change() for r in self._hash_rules): the same question, asked rule by rule
+            g_ = e.args[0].generators[0]
+            if isinstance(g_.target, ast.Name) and A.norm(g_.iter) == "self._hash_rules" and not g_.ifs and A.norm(e.args[0].elt) == g_.target.id + ".did_change()":
+                return ("changed", ("exact", True, A.norm_alpha(e)))
         if changed_coll(e) is not None:
             return ("changed", (changed_coll(e), True, A.norm_alpha(e)))
         if _is_empty_container(e):
@@ -2149,6 +2155,9 @@ def _closures_denoted(fa, expr, at, depth=6, _via=()):
         return []
     if isinstance(expr, ast.Lambda):
         return [(expr, at, _via)]
+    if isinstance(expr, ast.Call) and A.call_attr(expr) == "partial" and expr.args:
+        # functools.partial binds the ARGUMENTS now; what the function itself reads from the enclosing scope stays late-bound
+        return _closures_denoted(fa, expr.args[0], at, depth - 1, _via)
     if isinstance(expr, ast.IfExp):
         return _closures_denoted(fa, expr.body, at, depth - 1, _via) + _closures_denoted(fa, expr.orelse, at, depth - 1, _via)
     if isinstance(expr, ast.BoolOp):
@@ -2298,6 +2307,7 @@ def check_resolver_closures(ck, R):
         # directly, through a local alias, or made by a factory function called for the purpose
         handed = {}    # id(closure) -> (closure, creation node, [(use call, use node, alias nodes, argument)])
         factories = {}  # id(factory call) -> (factory call, its node)
+        partials = {}   # id(partial(<module function>, ...) call) -> (call, its node)
         for c in v.calls():
             for un in v.nodes(c):
                 for arg in list(c.args) + [k.value for k in c.keywords]:
@@ -2307,6 +2317,9 @@ def check_resolver_closures(ck, R):
                     for (e, a_) in _alternatives(v, arg, un):
                         if isinstance(e, ast.Call) and e is not arg and _closure_factory(ck, v, e) is not None:
                             factories.setdefault(id(e), (e, a_))
+                        if isinstance(e, ast.Call) and A.call_attr(e) == "partial" and e.args and isinstance(e.args[0], ast.Name) \
+                                and e.args[0].id in ck.repo.module(CH).functions and not v.df.is_local(e.args[0].id):
+                            partials.setdefault(id(e), (e, a_))
                     if isinstance(arg, ast.Call) and _closure_factory(ck, v, arg) is not None:
                         factories.setdefault(id(arg), (arg, un))
         # names derived from evaluation: assigned from a call of such a closure, a getattr() or a subscript of the global table
@@ -2319,7 +2332,7 @@ def check_resolver_closures(ck, R):
                 return False
             if any(id(cl) in handed for (cl, _d, _v) in _closures_denoted(v, n.func, at)):
                 return True
-            return any(isinstance(e, ast.Call) and id(e) in factories for (e, _a) in _alternatives(v, n.func, at))
+            return any(isinstance(e, ast.Call) and (id(e) in factories or id(e) in partials) for (e, _a) in _alternatives(v, n.func, at))
 
         while changed:
             changed = False
@@ -2399,6 +2412,19 @@ def check_resolver_closures(ck, R):
                     nones = _none_for_missing(node)
                     ck.ob(R, "%s::%s::missing-is-not-none" % (v.qual, label), not nones,
                           "a missing name resolves to a sentinel of its own" if not nones else NONE_MSG % A.short(nones[0], 60), A.loc(fx.fi, nones[0] if nones else node))
+        # a module-level function with its arguments bound by functools.partial: nothing is late-bound; what is bound
+        # must not be an object obtained by evaluating the chain
+        for (pc, pat) in sorted(partials.values(), key=lambda f_: getattr(f_[0], "lineno", 0)):
+            n_res += 1
+            bad = sorted({n_.id for a_ in list(pc.args[1:]) + [k.value for k in pc.keywords] for n_ in ast.walk(a_) if isinstance(n_, ast.Name)} & derived)
+            ck.ob(R, "%s::partial %s@%s" % (v.qual, pc.args[0].id, "loop" if v.enclosing(pc, ast.For) is not None else "top"), not bad,
+                  "resolver re-resolves from the global table" if not bad else
+                  "the resolver `%s` is bound to %s, an object obtained while evaluating the chain: when an intermediate object is replaced "
+                  "(class re-executed, module attribute rebound) the rule keeps looking at the old object and did_change never fires" % (A.short(pc, 50), bad), A.loc(v.fi, pc))
+            pf = ck.repo.module(CH).functions[pc.args[0].id]
+            nones = _none_for_missing(pf.node)
+            ck.ob(R, "%s::partial %s@%s::missing-is-not-none" % (v.qual, pc.args[0].id, "loop" if v.enclosing(pc, ast.For) is not None else "top"), not nones,
+                  "a missing name resolves to a sentinel of its own" if not nones else NONE_MSG % A.short(nones[0], 60), A.loc(pf, nones[0] if nones else pf.node))
         # rules that watch for a symbol to appear must also look it up from the root each time
         for c in v.calls("UndefinedSymbolHashRule"):
             base = c.args[0] if c.args else A.kwarg(c, "ref")
